@@ -235,5 +235,14 @@ Case(p) ==
        [excl |-> FALSE, prog |-> p, exp |-> Obs(s), mach |-> Obs(mc), mexcl |-> mc.excl,
         tags |-> mc.tags, nt |-> s.nt, steps |-> mc.steps, nops |-> mc.nops]
 
-Emit == (phase' = 1 /\ (EmitOneIn = 1 \/ RandomElement(1..EmitOneIn) = 1)) => PrintT("CASE " \o ToJson(Case(prog')))
+\* exhaustive mode emits one program in EmitOneIn, and every program that contains an ITERATE (the rarest
+\* control transfer of the enumeration: label resolution of ITERATE is only exercised by these)
+RECURSIVE HasIter(_), HasIterSeq(_)
+HasIterSeq(ss) == \E i \in DOMAIN ss : HasIter(ss[i])
+HasIter(s) == CASE s.k = "iter" -> TRUE
+                [] s.k \in {"if", "case"} -> HasIterSeq(s.arms[1].body) \/ HasIterSeq(s.els)
+                [] s.k \in {"while", "repeat", "loop", "block"} -> HasIterSeq(s.body)
+                [] OTHER -> FALSE
+Emit == (phase' = 1 /\ (EmitOneIn = 1 \/ RandomElement(1..EmitOneIn) = 1 \/ HasIter(prog'.body)))
+          => PrintT("CASE " \o ToJson(Case(prog')))
 =============================================================================
